@@ -10,7 +10,9 @@
      CR <c>    the same with every hash-ordered set enumerated in reverse
      H <bits>  the decidable hypotheses, one 0/1 each, in this order:
                is_block, stmt_sugar_free, ast_init_flat      (proved for what Model.Desugar hands on)
-               names_distinct, stmt_lits_ok, ssa_output_ok   (PipelineMirrors.body_ok)
+               names_distinct, stmt_lits_ok                  (PipelineMirrors.body_ok)
+               ssa_output_ok                                 (PROVED for every body, both enumeration orders:
+                                                              C01_chain_ssa_output_unique_local_defs; a 0 contradicts it)
                definition_wf, ast_init_ok
    Only structural decoding/encoding here; everything with logic is extracted Gallina. *)
 open Datatypes
